@@ -139,6 +139,14 @@ func run() error {
 			overlay[filepath.Join(*repoDir, "verifshim", e.Name())] = filepath.Join(*shimDir, e.Name())
 		}
 	}
+	// hook files for the module's root package (shim/root/*.go, build tag verif)
+	if rents, err := os.ReadDir(filepath.Join(*shimDir, "root")); err == nil {
+		for _, e := range rents {
+			if strings.HasSuffix(e.Name(), ".go") {
+				overlay[filepath.Join(*repoDir, "zz_"+e.Name())] = filepath.Join(*shimDir, "root", e.Name())
+			}
+		}
+	}
 	if *extraOvl != "" {
 		b, err := os.ReadFile(*extraOvl)
 		if err != nil {
